@@ -26,7 +26,7 @@ impl<'a> IrEmitter<'a> {
         filter: Option<&TypedExpr>,
     ) -> Result<TokenStream, EmitError> {
         let iter = self.emit_expr(iterable)?;
-        let var_ident = format_ident!("{}", variable);
+        let var_ident = format_ident!("{}", Self::escape_keyword(variable));
         let elem = self.emit_expr(element)?;
 
         let is_range = self.is_range_iterable(iterable);
@@ -67,7 +67,7 @@ impl<'a> IrEmitter<'a> {
         filter: Option<&TypedExpr>,
     ) -> Result<TokenStream, EmitError> {
         let iter = self.emit_expr(iterable)?;
-        let var_ident = format_ident!("{}", variable);
+        let var_ident = format_ident!("{}", Self::escape_keyword(variable));
         let key_tokens = self.emit_expr(key)?;
         let value_tokens = self.emit_expr(value)?;
 
